@@ -3,12 +3,14 @@
 property's check on /repo with the patch applied (and undo it).  usage: seeded_eval.py <dir with patch.diff, demo.rs, meta.json> [more props]"""
 import os, sys, json, subprocess, shutil, re
 VERIF = os.path.dirname(os.path.dirname(os.path.abspath(__file__)))
+REPO = os.environ.get('COSET_REPO', '/repo')      # a scratch git worktree of /repo when several evaluations run side by side
+WID = os.environ.get('EVAL_WORKER', '')
 src = sys.argv[1].rstrip('/')
 meta = json.load(open(os.path.join(src, 'meta.json')))
 pid = meta['property']
 name = os.path.basename(src)
-wt = '/tmp/wt-eval'
-demo = '/tmp/demo-eval'
+wt = '/tmp/wt-eval' + WID
+demo = '/tmp/demo-eval' + WID
 def sh(cmd, cwd=None, timeout=3000):
     p = subprocess.run(cmd, shell=True, cwd=cwd, capture_output=True, text=True, timeout=timeout)
     return p.returncode, p.stdout + p.stderr
@@ -33,9 +35,9 @@ try:
 finally:
     subprocess.run('git -C /repo worktree remove --force %s; rm -rf %s %s' % (wt, wt, demo), shell=True)
 # now the checks, on /repo itself
-rc, out = sh('git -C /repo diff --quiet')
+rc, out = sh('git -C %s diff --quiet' % REPO + '')
 assert rc == 0, 'repo dirty'
-rc, out = sh('git -C /repo apply %s' % os.path.join(src, 'patch.diff'))
+rc, out = sh('git -C %s apply %s' % (REPO, os.path.join(src, 'patch.diff')))
 assert rc == 0, out
 try:
     res['checks'] = {}
@@ -43,11 +45,11 @@ try:
     if extra == ['--all']:
         extra = [c['property_id'] for c in json.load(open(os.path.join(VERIF, 'MANIFEST.json')))['checks'] if c['property_id'] != pid]
     for p in [pid] + extra:
-        env = dict(os.environ, VERIF_EVIDENCE_DIR='/tmp/mut-evidence')
+        env = dict(os.environ, VERIF_EVIDENCE_DIR='/tmp/mut-evidence' + WID)
         pr = subprocess.run(['python3', 'tools/check.py', p], cwd=VERIF, capture_output=True, text=True, env=env)
         lines = [l[:300] for l in pr.stdout.splitlines() if re.match(r'VIOLATION|UNDECIDED|OK |FAILED-OBL|FAILING-INPUT', l)]
         res['checks'][p] = {'rc': pr.returncode, 'lines': lines[:8]}
 finally:
-    subprocess.run('git -C /repo checkout -- .', shell=True)
+    subprocess.run('git -C %s checkout -- .' % REPO, shell=True)
 print(json.dumps(res, indent=1))
 json.dump(res, open(os.path.join(src, 'eval.json'), 'w'), indent=1)
